@@ -24,7 +24,8 @@ from ..drive import nav
 
 PID = "C07"
 THEOREMS = ["TWellFormed", "TConforms", "TPlain", "TLoad"]
-DEV_BREAKS = {"NoTypeTest": "TPlain", "BuiltinsFirst": "TPlain", "FirstMatch": "TPlain", "ClassNameOnly": "TConforms"}
+DEV_BREAKS = {"NoTypeTest": ("TPlain",), "BuiltinsFirst": ("TPlain",), "FirstMatch": ("TPlain",),
+              "ClassNameOnly": ("TConforms", "TWellFormed", "TPlain")}
 BUILTIN_POOL = [dict(name="x", cls="Sub1"), dict(name="y", cls="Other")]
 BUILTIN_SETS = [[], [BUILTIN_POOL[0]], [BUILTIN_POOL[1]], BUILTIN_POOL]
 USER_CLASSES = ["Sub1", "Other"]
@@ -210,7 +211,7 @@ def _vacuity(env):
         e["VT_DEV"] = d
         r = nav.check_theorems("MC_Nav_C07.cfg", e)
         out[d] = r.violated
-        if r.violated not in (thm, "TPlain"):
+        if r.violated not in thm:
             raise tlc.MachineryError(f"Nav.tla with Dev={{{d}}}: expected theorem {thm} to fail, TLC says "
                                      f"violated={r.violated} error={r.error}")
     return out
@@ -237,9 +238,9 @@ def run(rep):
 
     # (M) flat models up to 5 named objects with one reference; nested models; several references
     if quick:
-        universes = [("MM7F", 7, 5, 1, 1), ("MM7", 4, 3, 1, 1), ("MM7F", 5, 2, 2, 3)]
+        universes = [("MM7F", 7, 5, 1, 1), ("MM7", 4, 3, 1, 1), ("MM7F", 5, 2, 2, 2)]
     else:
-        universes = [("MM7F", 7, 5, 1, 1), ("MM7", 5, 3, 1, 2), ("MM7F", 6, 2, 3, 3)]
+        universes = [("MM7F", 7, 5, 1, 1), ("MM7", 5, 3, 1, 2), ("MM7F", 5, 2, 2, 3)]
     envs = [nav.nav_env(m, n, nm, un, rf, 0, True) for m, n, nm, un, rf in universes]
     for u, env in zip(universes, envs):
         r = nav.check_theorems("MC_Nav_C07.cfg", env)
@@ -251,8 +252,8 @@ def run(rep):
 
     # (S->I) enumerated models x builtins subsets
     reals, items, total = {}, [], 0
-    caps = [None, 1500, 1500] if quick else [None, None, 60000]
-    for u, env, cap in zip(universes, envs, caps):
+    caps = [None, 1500, 1500] if quick else [None, None, None]
+    for ui, (u, env, cap) in enumerate(zip(universes, envs, caps)):
         r, mm, gs = nav.enumerate_graphs(env)
         rep.add_mc(f"MC_Nav_Emit[{u[0]} <= {u[2]} named, <= {u[4]} refs]", r, ["(enumeration)"])
         gs = sorted({common.canon(g): g for g in gs}.values(), key=common.canon)
@@ -266,12 +267,13 @@ def run(rep):
             for bi, B in enumerate(BUILTIN_SETS):
                 if cap is not None and quick and bi != i % 4 and bi != 3:
                     continue
-                variants = ("user", "donor") if not quick else (("user", "donor")[(i + bi) % 2],)
+                variants = ("user", "donor") if (not quick and ui == 0) else (("user", "donor")[(i + bi) % 2],)
                 for v in variants:
                     items.append((u[0], mm, g2, B, v))
     _conform(rep, reals, items, devs, "enumerated")
     rep.exhaustive = not quick
-    rep.bounds["enumerated"] = dict(models=total, cases=len(items), builtins_sets=4)
+    rep.bounds["enumerated"] = dict(models=total, cases=len(items), builtins_sets=4,
+                                    sampled=[c for c in caps if c is not None])
 
     # (I->S) bigger random nested models
     mm7 = reals["MM7"].mm
